@@ -143,7 +143,14 @@ fn worker(id: &str, tier: Tier, shard: usize, nshards: usize, seed: u64, out: &s
     }
     let res = match handle.join() {
         Ok(r) => r,
-        Err(_) => std::process::exit(6),
+        Err(_) => {
+            // a panic in the harness itself (not in the tested code): say where
+            let msg = format!("p2v worker {}: harness panic: {}\n", shard, last_panic_text());
+            unsafe {
+                libc::write(keep_err, msg.as_ptr() as *const libc::c_void, msg.len());
+            }
+            std::process::exit(6)
+        }
     };
     let s = serde_json::to_string(&res).unwrap();
     if std::fs::write(out, s).is_err() {
